@@ -58,7 +58,7 @@ theorem spec_appendAll_fresh (kind : Kind) (l o : Spec.Tab)
 theorem Table.Inv.copyOf {h : Nat → Nat} {o : Table} (ho : o.Inv h) (kind : Kind) :
     (Table.copyOf kind h o).Inv h ∧ (Table.copyOf kind h o).iterate = o.iterate.map (Spec.stored kind) := by
   unfold Table.copyOf
-  have := (fresh_inv h 500 (by decide)).appendAll kind o.items o.order
+  have := (fresh_inv h o.dcap o.ipb o.dcap ho.dcap_pos ho.ipb_pos ho.dcap_pos).appendAll kind o.items o.order
   refine ⟨this.1, ?_⟩
   rw [this.2, fresh_iterate, ← Table.iterate_eq]
   rw [spec_appendAll_fresh kind [] o.iterate (by rw [Table.keys_iterate]; exact ho.keys_nodup) (by simp [Spec.keys])]
